@@ -389,7 +389,12 @@ def check_uc(case, rec):
     rec.cls("uc-entry:" + entry)
     rename = None
     if entry in ("from_uc_map", "cli"):
-        rename = {o: "OTU_%d" % k for k, o in enumerate(obs)}
+        # (an OTU label is the first blank-separated field of the header,
+        # whatever punctuation it holds)
+        styles = ["OTU_%d", "denovo%d;size=12;", "d%d;g__Bacillus;s__x",
+                  "k__A|%d", "otu:%d,a", "%d", "OTU_%d", "#%d=", "é%d>x"]
+        rename = {o: styles[(len(text) + k * (len(obs) % 3)) % len(styles)]
+                  % k for k, o in enumerate(obs)}
         fasta = "".join(">%s %s extra\nACGT\n" % (v, k)
                         for k, v in rename.items()) + \
             ">OTU_unused zz_9\nAC\n"
